@@ -219,7 +219,11 @@ private:
         // TODO: get rid of this? This is forwarded to another ErrorLogger which is also doing this
         // Suppressed findings are filtered separately: a suppressed finding must not hide a later unsuppressed
         // one that happens to render to the same text (e.g. a template without the line number).
-        if (!mSettings.emitDuplicates && !(suppressed ? mSuppressedErrorList : mErrorList).emplace(std::move(errmsg)).second)
+        // With several jobs this logger does not apply the global suppressions (Executor::hasToLog does that
+        // afterwards): a finding that will be dropped there has to be treated like a suppressed one here,
+        // otherwise -j N hides the later finding that -j 1 reports.
+        const bool suppressedLater = !suppressed && !mUseGlobalSuppressions && mSuppressions.nomsg.isSuppressed(errorMessage);
+        if (!mSettings.emitDuplicates && !((suppressed || suppressedLater) ? mSuppressedErrorList : mErrorList).emplace(std::move(errmsg)).second)
             return;
 
         if (mAnalyzerInformation)
